@@ -14,7 +14,8 @@
 EXTENDS GenProg, QuerySplit, IOUtils
 
 CONSTANTS PlanFamily, MaxOps, DbRows,
-          CoreFrom    \* sequences use the full menu for the first CoreFrom operators, then CoreMenu
+          CoreFrom,   \* sequences use the full menu for the first CoreFrom operators, then CoreMenu
+          JoinDepth   \* join family: up to JoinDepth operators before and after the join (1 or 2)
 
 ---------------------------------------------------------------------------
 (* databases                                                               *)
@@ -118,6 +119,13 @@ AfterMenu == <<
   Top(Num("1"), TermD(Col("a")))
 >>
 
+\* one or two operators from a menu as one choice: 0 none, 1..n one, beyond that the ordered pairs of different entries
+PairRange(menu) == LET n == Len(menu) IN
+  IF JoinDepth >= 2 THEN {x \in 0..(n + n * n) : x <= n \/ ((x - n - 1) \div n) # ((x - n - 1) % n)} ELSE 0..n
+PairOps(menu, x) == LET n == Len(menu) IN
+  IF x = 0 THEN <<>> ELSE IF x <= n THEN <<menu[x]>>
+  ELSE <<menu[((x - n - 1) \div n) + 1], menu[((x - n - 1) % n) + 1]>>
+
 \* choice trees
 PlanChoices(c) ==
   CASE PlanFamily = "seq" ->
@@ -125,17 +133,17 @@ PlanChoices(c) ==
          ELSE (IF Len(c) < CoreFrom THEN DOMAIN SemMenu ELSE SeqRange(CoreMenu)) \ {x \in NoRepeat : \E i \in DOMAIN c : c[i] = x}
     [] PlanFamily = "join" ->
          \* <<left prefix (0 = none), join, after (0 = none)>> then optionally a second join
-         (CASE Len(c) = 0 -> {0} \cup DOMAIN LeftMenu
+         (CASE Len(c) = 0 -> PairRange(LeftMenu)
             [] Len(c) = 1 -> DOMAIN JoinMenu
-            [] Len(c) = 2 -> {0} \cup DOMAIN AfterMenu
+            [] Len(c) = 2 -> PairRange(AfterMenu)
             [] Len(c) = 3 -> IF MaxOps >= 4 /\ c[2] <= 7 THEN {0} \cup SecondJoins ELSE {}
             [] OTHER -> {})
 PlanOps(c) ==
   CASE PlanFamily = "seq" -> [i \in DOMAIN c |-> SemMenu[c[i]]]
     [] PlanFamily = "join" ->
-         (IF Len(c) >= 1 /\ c[1] # 0 THEN <<LeftMenu[c[1]]>> ELSE <<>>)
+         (IF Len(c) >= 1 THEN PairOps(LeftMenu, c[1]) ELSE <<>>)
          \o (IF Len(c) >= 2 THEN <<JoinMenu[c[2]]>> ELSE <<>>)
-         \o (IF Len(c) >= 3 /\ c[3] # 0 THEN <<AfterMenu[c[3]]>> ELSE <<>>)
+         \o (IF Len(c) >= 3 THEN PairOps(AfterMenu, c[3]) ELSE <<>>)
          \o (IF Len(c) >= 4 /\ c[4] # 0 THEN <<JoinMenu[c[4]]>> ELSE <<>>)
 PlanTab(c) == Tab("T", PlanOps(c))
 PlanDbs == IF PlanFamily = "seq" THEN SingleDbs ELSE JoinDbs
